@@ -21,7 +21,7 @@ for sid in ids:
         if rc == 0:
             applied = pf
             break
-        sh("git -C /repo checkout -- . ; git -C /repo reset -q")
+        sh("git -C /repo reset -q ; git -C /repo checkout -- .")
     if not applied:
         rows.append((sid, pid, "PATCH DOES NOT APPLY", 0)); print(rows[-1]); continue
     sh("git -C /repo reset -q")
